@@ -22,6 +22,13 @@
        "continue"  parse_lifecycles_buffered_from_stream: an error inside one of its inner release loops only ends
                    that loop - the stage keeps consuming its input (and failing to send) until the input ends or
                    the main-loop send fails; both continuations are allowed at every error.
+   Rendezvous hand-over needs one side PARKED: try_send succeeds on a capacity-0 channel only while the receiver is
+   parked in a blocking receive, try_recv only while a sender is parked in a blocking send.  The consumer's style is
+   explicit (cstyle): "block" = recv()/recv_timeout() (parks), "poll" = try_recv + sleep (never parks; remote.rs's
+   close-drain loop).  The helper's contract is therefore: AFTER A Full THE SENDER PARKS (blocking send) UNTIL THE MESSAGE
+   IS TAKEN OR THE RECEIVER IS GONE - Wake leads to "block", never back to another try_send.  PollingHelper = TRUE is the
+   deviation "retry try_send after every sleep" (model self-test only): with a polling consumer on a rendezvous channel
+   nothing is ever handed over and Termination fails.
    The consumer may drop its receiver (dropAt = number of messages it takes before; -1 = never).
 
    The lifecycle ("hold") stage also PUBLISHES its table (evmap refresh) under a refresh index, the way
@@ -46,6 +53,9 @@ CONSTANTS NMsgs,        \* the producer sends 1..NMsgs
           DropChoices,  \* values of dropAt (-1 = the consumer never drops)
           H,            \* the heap stage holds at most H messages
           PStalls, CStalls,  \* pacing hints for the real run (no effect here: TLC explores every schedule anyway)
+          ConsumerStyles,  \* subset of {"block", "poll"}
+          StylesEverywhere, \* FALSE: choose the style only where it matters (last channel is a rendezvous channel) - fewer states
+          PollingHelper,   \* FALSE = as coded
           Observe,      \* TRUE: a table observer polls at arbitrary points (more states)
           SkipIdxStep   \* FALSE = as coded
 
@@ -54,7 +64,7 @@ C == NS + 1
 Procs == 0..C
 Chans == 0..NS
 
-VARIABLES caps, dropAt, pstall, cstall,      \* scenario parameters, fixed in Init
+VARIABLES caps, dropAt, pstall, cstall, cstyle,      \* scenario parameters, fixed in Init
           pc,        \* [Procs -> "recv" | "send" | "sleep" | "block" | "done"]
           st,        \* [1..NS -> transducer state]
           outq,      \* [0..NS -> outputs of the current batch still to be sent]
@@ -65,8 +75,8 @@ VARIABLES caps, dropAt, pstall, cstall,      \* scenario parameters, fixed in In
           seen,      \* messages consumed by the lifecycle stage
           pub,       \* published table: [val |-> [a, b], idx |-> index of the last publish, next |-> next index, ok]
           obs        \* the incremental observer: [last |-> largest index seen, val |-> folded table]
-params == <<caps, dropAt, pstall, cstall>>
-vars == <<caps, dropAt, pstall, cstall, pc, st, outq, fin, q, sAlive, rAlive, received, dropped, seen, pub, obs>>
+params == <<caps, dropAt, pstall, cstall, cstyle>>
+vars == <<caps, dropAt, pstall, cstall, cstyle, pc, st, outq, fin, q, sAlive, rAlive, received, dropped, seen, pub, obs>>
 
 -----------------------------------------------------------------------------
 \* the stage transducers
@@ -97,6 +107,7 @@ RefOut == RunChain(1, Input)
 
 -----------------------------------------------------------------------------
 Init == /\ caps \in [Chans -> CapAlphabet] /\ dropAt \in DropChoices /\ pstall \in PStalls /\ cstall \in CStalls
+        /\ cstyle \in (IF StylesEverywhere \/ caps[NS] = 0 THEN ConsumerStyles ELSE {"block"})
         /\ pc = [p \in Procs |-> IF p = 0 THEN "send" ELSE "recv"]
         /\ st = [p \in 1..NS |-> InitSt(Kinds[p])]
         /\ outq = [p \in 0..NS |-> IF p = 0 THEN Input ELSE <<>>]
@@ -109,6 +120,8 @@ Init == /\ caps \in [Chans -> CapAlphabet] /\ dropAt \in DropChoices /\ pstall \
 
 \* room in channel i; a rendezvous channel takes a value only while its receiver waits in recv
 HasSpace(i) == IF caps[i] = 0 THEN q[i] = <<>> /\ pc[i + 1] = "recv" ELSE Len(q[i]) < caps[i]
+\* does the receiver of channel i park while it waits? (the stages do: `for m in inflow`; the consumer depends on its style)
+ReceiverParks(i) == i # NS \/ cstyle = "block"
 
 \* publishing (lifecycle stage only)
 IsLc(p) == p >= 1 /\ p <= NS /\ Kinds[p] = "hold"
@@ -133,11 +146,12 @@ Transfer(p) == /\ q' = [q EXCEPT ![p] = Append(@, Head(outq[p]))]
                /\ pub' = (IF Tail(outq[p]) = <<>> /\ fin[p] THEN PubOnReturn(p) ELSE pub)
                /\ UNCHANGED <<params, st, fin, received, dropped, seen, obs>>
 
-TrySendOk(p) == pc[p] = "send" /\ rAlive[p] /\ HasSpace(p) /\ Transfer(p)
+\* try_send: at capacity 0 it needs a PARKED receiver; a blocking send at capacity 0 is itself parked, so a polling receiver finds it
+TrySendOk(p) == pc[p] = "send" /\ rAlive[p] /\ HasSpace(p) /\ (caps[p] = 0 => ReceiverParks(p)) /\ Transfer(p)
 TrySendFull(p) == /\ pc[p] = "send" /\ rAlive[p] /\ (~HasSpace(p) \/ caps[p] = 0)   \* (rendezvous: the receiver may not be parked yet)
                   /\ pc' = [pc EXCEPT ![p] = "sleep"]
                   /\ UNCHANGED <<params, st, outq, fin, q, sAlive, rAlive, received, dropped, seen, pub, obs>>
-Wake(p) == /\ pc[p] = "sleep" /\ pc' = [pc EXCEPT ![p] = "block"]
+Wake(p) == /\ pc[p] = "sleep" /\ pc' = [pc EXCEPT ![p] = IF PollingHelper THEN "send" ELSE "block"]
            /\ UNCHANGED <<params, st, outq, fin, q, sAlive, rAlive, received, dropped, seen, pub, obs>>
 BlockingSend(p) == pc[p] = "block" /\ rAlive[p] /\ HasSpace(p) /\ Transfer(p)
 
@@ -207,5 +221,5 @@ DropTerminates == dropped ~> AllDone
 
 \* scenario emission: one line per initial state
 EmitScn == PrintT(<<"SCN", ToJson([caps |-> [i \in 1..(NS + 1) |-> caps[i - 1]], drop_at |-> dropAt, kinds |-> Kinds,
-                                   nmsgs |-> NMsgs, nout |-> Len(RefOut), pstall |-> pstall, cstall |-> cstall])>>)
+                                   nmsgs |-> NMsgs, nout |-> Len(RefOut), pstall |-> pstall, cstall |-> cstall, cstyle |-> cstyle])>>)
 =============================================================================
